@@ -80,10 +80,10 @@ PROPS["C09"] = dict(
     title="Lazy-table coherence",
     technique="bounded model checking (Kani/CBMC, SAT) of ParsingTable/ParsingIterator on symbolic bytes with ragged lengths and an unconstrained index",
     level_text="For each entry type the solver decides, for all table contents and all byte lengths 0..K*entsize+entsize-1 (K=2 quick, up to 3 thorough) and ANY usize index: len()==bytes/entsize, is_empty()==(len()==0), "
-               "get(i) ok iff i<len(), get(i)==the ABI record at i*entsize, repeated access stable, iter()/into_iter() yield exactly len() items with item j == get(j), relocation iterators yield exactly the whole entries and then stop.",
-    level_note="Bound: at most K=2 (some K=3) whole entries plus a ragged tail; class fixed per harness; larger tables are outside the claim (the code is uniform in the index: one checked_mul + one parse). usize = 64 bit.",
+               "get(i) ok iff i<len(), get(i)==the ABI record at i*entsize, repeated access stable, iter()/into_iter() yield exactly len() items with item j == get(j), relocation iterators yield exactly the whole entries and then stop; positional Iterator methods on a table iterator (nth after s next() calls, skip, count, last) agree with get(s+m)/len().",
+    level_note="Bound: at most K=2 (some K=3) whole entries plus a ragged tail; positional harness: u32 entries, <=3 entries, s<=2, m<=3; class fixed per harness; larger tables are outside the claim (the code is uniform in the index: one checked_mul + one parse). usize = 64 bit.",
     groups=[
-        K("core", ["c09::"], functions=["ParsingTable::{new,len,is_empty,get,iter,into_iter}", "ParsingIterator::{new,next}", "ParseAt for Symbol,u32,VersionIndex,Dyn,Rel,Rela (ELF32)"],
+        K("core", ["c09::"], functions=["ParsingTable::{new,len,is_empty,get,iter,into_iter}", "ParsingIterator::{new,next} and the Iterator methods layered on it (nth, skip, count, last)", "ParseAt for Symbol,u32,VersionIndex,Dyn,Rel,Rela (ELF32)"],
           bounds="bytes symbolic, length 0..=3*entsize-1, index any usize, byte order symbolic; unwind 5", timeout_s=900),
         K("core", ["c09t::"], tier="thorough", functions=["same for SectionHeader, ProgramHeader, Symbol, Dyn, u64 (both classes), K=3 for small entries"],
           bounds="length 0..=(K+1)*entsize-1, K=2 or 3; unwind 6", timeout_s=2700),
